@@ -840,9 +840,21 @@ impl Log {
 			};
 			*appending = Some(Appending { size: 0, file: std::io::BufWriter::new(file), id });
 		}
+		let flushed = log.flush_to_file(&mut appending.as_mut().unwrap().file);
+		let FlushedLog { index, values, ref_count, bytes } = match flushed {
+			Ok(flushed) => flushed,
+			Err(e) => {
+				// The record is only partly written. Take the file out of circulation, so that
+				// it is never handed to the enactment stage (which applies a record while reading
+				// it), and without flushing the rest of the torn record. What the file holds is
+				// replayed, up to the torn record, by the next open.
+				if let Some(torn) = appending.take() {
+					let _ = torn.file.into_parts();
+				}
+				return Err(e)
+			},
+		};
 		let appending = appending.as_mut().unwrap();
-		let FlushedLog { index, values, ref_count, bytes } =
-			log.flush_to_file(&mut appending.file)?;
 		let mut overlays = self.overlays.write();
 		let mut total_index = 0;
 		for (id, overlay) in index.into_iter() {
